@@ -140,22 +140,25 @@ type regOutcome struct {
 // tryRegionMerge returns true if the If was handled by merging (fr.block = J).
 func (w *Worker) tryRegionMerge(fr *frame, x *ssa.If, cnd *Term, J *ssa.BasicBlock) bool {
 	d := w.dc
+	site := w.site(skMerge)
 	replaying := false
 	if d.pos < len(d.prefix) {
-		code := d.prefix[d.pos]
-		d.pos++
-		d.taken = append(d.taken, code)
+		code := w.replayNext(d, site, "region merge")
 		if code == decMergeFail {
+			// mirror the counter update of the original execution
+			if w.mergeFails[x] < 2 {
+				w.mergeFails[x]++
+			}
 			return false
 		}
 		if code != decMergeOK {
-			panic(pathAbort{abError, fmt.Sprintf("internal: decision desync at region merge (code %d)", code)})
+			panic(pathAbort{abError, fmt.Sprintf("internal: decision desync at region merge (code %d)", code) + w.where()})
 		}
 		replaying = true
 	} else {
 		d.pos++
 		if w.mergeFails[x] >= 2 || w.regionDepth >= w.prog.maxRegionDepth {
-			d.taken = append(d.taken, decMergeFail)
+			d.taken = append(d.taken, encDec(site, decMergeFail))
 			return false
 		}
 	}
@@ -164,17 +167,28 @@ func (w *Worker) tryRegionMerge(fr *frame, x *ssa.If, cnd *Term, J *ssa.BasicBlo
 	slot := -1
 	if !replaying {
 		slot = len(d.taken)
-		d.taken = append(d.taken, decMergeOK)
+		d.taken = append(d.taken, encDec(site, decMergeOK))
+	}
+	// failed attempts must leave no trace in the blacklist except their own
+	// entry: a re-execution skips them (decMergeFail) and would not repeat the
+	// nested attempts
+	var failSnap map[ssa.Instruction]int
+	if !replaying {
+		failSnap = make(map[ssa.Instruction]int, len(w.mergeFails))
+		for k, v := range w.mergeFails {
+			failSnap[k] = v
+		}
 	}
 	ok := w.regionMerge(fr, x, cnd, J)
 	if replaying {
 		if !ok {
-			panic(pathAbort{abError, "internal: region merge failed on replay but succeeded before"})
+			panic(pathAbort{abError, "internal: region merge failed on replay but succeeded before: " + w.mergeWhy + w.where()})
 		}
 		return true
 	}
 	if !ok {
-		d.taken[slot] = decMergeFail
+		d.taken[slot] = encDec(site, decMergeFail)
+		w.mergeFails = failSnap
 		w.mergeFails[x]++
 	}
 	return ok
@@ -189,6 +203,7 @@ func (w *Worker) regionMerge(fr *frame, x *ssa.If, cnd *Term, J *ssa.BasicBlock)
 	baseInputs := len(w.inputs)
 	baseGor := w.gor
 	baseRegions := len(w.regions)
+	_ = baseRegions
 	w.regionDepth++
 	defer func() { w.regionDepth-- }()
 	// phis at J
@@ -209,11 +224,39 @@ func (w *Worker) regionMerge(fr *frame, x *ssa.If, cnd *Term, J *ssa.BasicBlock)
 	for k, v := range w.names {
 		namesSnap[k] = v
 	}
+	symSnap := map[ssa.Instruction]int{}
+	for k, v := range fr.symCount {
+		symSnap[k] = v
+	}
+	regionsSnap := map[string]*Term{}
+	for k, v := range w.regions {
+		regionsSnap[k] = v
+	}
 	restoreNames := func() {
 		w.names = map[string]int{}
 		for k, v := range namesSnap {
 			w.names[k] = v
 		}
+		w.regions = map[string]*Term{}
+		for k, v := range regionsSnap {
+			w.regions[k] = v
+		}
+		// unwinding counters of this frame are per explored sub-path
+		fr.symCount = map[ssa.Instruction]int{}
+		for k, v := range symSnap {
+			fr.symCount[k] = v
+		}
+	}
+	regionsChanged := func() bool {
+		if len(w.regions) != len(regionsSnap) {
+			return true
+		}
+		for k, v := range w.regions {
+			if regionsSnap[k] != v {
+				return true
+			}
+		}
+		return false
 	}
 	var outs []regOutcome
 	queue := [][]int{{}}
@@ -222,6 +265,7 @@ func (w *Worker) regionMerge(fr *frame, x *ssa.If, cnd *Term, J *ssa.BasicBlock)
 		w.dc = saved
 		w.cur, w.depth = savedCur, savedDepth
 		fr.block, fr.prev = origBlock, origPrev
+		fr.instr = x
 		if len(fr.defers) > baseDefers {
 			fr.defers = fr.defers[:baseDefers]
 		}
@@ -234,7 +278,7 @@ func (w *Worker) regionMerge(fr *frame, x *ssa.If, cnd *Term, J *ssa.BasicBlock)
 		queue = queue[:len(queue)-1]
 		var newq [][]int
 		w.dc = &dctx{prefix: pre, queue: &newq}
-		mark := len(w.journal)
+		mark := w.newMark()
 		pcMark := len(w.pc)
 		w.solver.Push()
 		var o regOutcome
@@ -248,6 +292,7 @@ func (w *Worker) regionMerge(fr *frame, x *ssa.If, cnd *Term, J *ssa.BasicBlock)
 						o.pan = &y
 					case regionEscape:
 						fail = true
+						w.mergeWhy = "escape: " + y.why
 					case pathAbort:
 						if y.kind == abInfeasible {
 							aborted = true
@@ -273,6 +318,8 @@ func (w *Worker) regionMerge(fr *frame, x *ssa.If, cnd *Term, J *ssa.BasicBlock)
 			if w.prog.lazyRegions && !isLoopHeader(origBlock) {
 				w.lazyNext = true
 			}
+			w.cur = fr
+			fr.instr = x
 			t := w.branch(cnd)
 			w.lazyNext = false
 			fr.prev = origBlock
@@ -306,8 +353,9 @@ func (w *Worker) regionMerge(fr *frame, x *ssa.If, cnd *Term, J *ssa.BasicBlock)
 				o.phis = append(o.phis, fr.env[sl])
 			}
 		}()
-		if len(fr.defers) != baseDefers || len(w.inputs) != baseInputs || w.gor != baseGor || len(w.regions) != baseRegions {
+		if len(fr.defers) != baseDefers || len(w.inputs) != baseInputs || w.gor != baseGor || regionsChanged() {
 			fail = true
+			w.mergeWhy = fmt.Sprintf("side effects: defers %d/%d inputs %d/%d gor %v regions %d/%d", len(fr.defers), baseDefers, len(w.inputs), baseInputs, w.gor != baseGor, len(w.regions), baseRegions)
 		}
 		o.cond = c.And(w.pc[pcMark:]...)
 		seen := map[*Object]bool{}
@@ -342,6 +390,7 @@ func (w *Worker) regionMerge(fr *frame, x *ssa.If, cnd *Term, J *ssa.BasicBlock)
 		}
 		if len(outs) > w.prog.maxRegionPaths {
 			fail = true
+			w.mergeWhy = "too many sub-paths"
 		}
 	}
 	restore()
@@ -369,6 +418,7 @@ func (w *Worker) regionMerge(fr *frame, x *ssa.If, cnd *Term, J *ssa.BasicBlock)
 		}
 		m, ok := w.mergeOutcomes(plain)
 		if !ok {
+			w.mergeWhy = fmt.Sprintf("outcomes of %d sub-paths not mergeable", len(plain))
 			return false
 		}
 		groups = append(groups, regOutcome{outcome: m, phis: []Value(m.res.(TupleV))})
